@@ -92,6 +92,13 @@ class RangeIt:
         self.cur, self.end = cur, end
 
 
+class SliceIt:
+    __slots__ = ('items', 'pos')
+
+    def __init__(self, items, pos):
+        self.items, self.pos = items, pos
+
+
 class Opt:
     """Option value: tag in {'some','none',None(unknown)}, payload abstract value."""
     __slots__ = ('tag', 'payload', 'label')
@@ -203,6 +210,9 @@ class Frame:
             v = self.store.get(l)
             if isinstance(v, Ref):
                 return v.root, list(v.proj) + proj[1:]
+            if v is not None:
+                # a reference to a constant / iterator item modelled by its value
+                return l, proj[1:]
             return ('*', l), proj[1:]
         return l, proj
 
@@ -612,10 +622,10 @@ class Interp:
                 return
 
         # ---- plumbing that is value-transparent
-        if d.endswith('IntoIterator>::into_iter') or d.endswith('IntoIterator::into_iter'):
+        if (d.endswith('IntoIterator>::into_iter') or d.endswith('IntoIterator::into_iter')) and not res.startswith('core::slice::iter::'):
             fr.storev(dest, fr.operand(args[0]))
             return
-        if 'Iterator' in d and d.endswith('::next') and ('Range' in d or 'Range' in (c.get('res') or '')):
+        if 'Iterator' in d and d.endswith('::next') and ('Range' in res):
             it_place = fr.ref_place_of(args[0])
             v = fr.deref_operand(args[0])
             if isinstance(v, RangeIt):
@@ -643,6 +653,67 @@ class Interp:
             return
         if trait in ('CurveProjective', 'CurveAffine') and name in ('into_affine', 'into_projective'):
             fr.storev(dest, fr.deref_operand(args[0]))
+            return
+
+
+        # ---- slices of constant tables and their iteration
+        if name == 'index' and (res.startswith('std::array::<impl std::ops::Index') or res.startswith('core::slice::index::<impl std::ops::Index')) and len(args) == 2:
+            base = self.value_of_ref(fr, args[0])
+            rng = fr.operand(args[1])
+            ty = fr.body.local_ty(op_place(args[1])['l']) if op_place(args[1]) is not None and not op_place(args[1])['p'] else ''
+            if isinstance(base, Agg):
+                if ty.endswith('RangeFull'):
+                    fr.storev(dest, base)
+                    return
+                if isinstance(rng, Agg) and all(isinstance(x, Int) for x in rng.items):
+                    if ty.startswith('std::ops::RangeTo<') and len(rng.items) == 1:
+                        fr.storev(dest, Agg(base.items[:rng.items[0].v]))
+                        return
+                    if ty.startswith('std::ops::RangeFrom<') and len(rng.items) == 1:
+                        fr.storev(dest, Agg(base.items[rng.items[0].v:]))
+                        return
+            fr.storev(dest, TOP)
+            return
+        if res.startswith('core::slice::iter::<impl std::iter::IntoIterator for &') and name == 'into_iter':
+            base = self.value_of_ref(fr, args[0])
+            if isinstance(base, Agg):
+                fr.storev(dest, SliceIt(base.items, 0))
+                pth.events.append(('iterate', len(base.items), where))
+                return
+            raise NotDerivable('iteration over a non-constant slice', where)
+        if name == 'next' and res.startswith('<std::slice::Iter<'):
+            v = fr.deref_operand(args[0])
+            if isinstance(v, SliceIt):
+                if v.pos < len(v.items):
+                    fr.storev(dest, Opt('some', v.items[v.pos]))
+                    nv = SliceIt(v.items, v.pos + 1)
+                else:
+                    fr.storev(dest, Opt('none', TOP))
+                    nv = v
+                fr.store_through(args[0], nv)
+                return
+            raise NotDerivable('iteration over a non-constant slice', where)
+        # ---- comparisons fork the path set
+        if trait == 'std::cmp::PartialEq' and name in ('eq', 'ne') and len(args) == 2:
+            a = self._as_lin(fr.deref_operand(args[0]))
+            b = self._as_lin(fr.deref_operand(args[1]))
+            fr.storev(dest, ('bool', (name, a, b, where)))
+            return
+        # ---- sgn0 / conditional negation (signum module)
+        if trait == 'signum::Signum0' and name == 'sgn0':
+            fr.storev(dest, ('sgn0', self.place_id(fr, args[0]), where, self._as_lin(fr.deref_operand(args[0]))))
+            return
+        if trait == 'std::ops::BitXor' and name == 'bitxor':
+            fr.storev(dest, ('xor', fr.operand(args[0]), fr.operand(args[1])))
+            return
+        if trait == 'signum::Signum0' and name == 'negate_if':
+            v = self._as_lin(fr.deref_operand(args[0]))
+            sg = fr.operand(args[1])
+            pth.events.append(('negate_if', self.place_id(fr, args[0]), sg, where))
+            if isinstance(v, Lin):
+                fr.store_through(args[0], v.add(Lin.atom('sign')))
+            else:
+                fr.store_through(args[0], TOP)
             return
 
         # ---- group / field transfer functions
@@ -673,6 +744,24 @@ class Interp:
             self._inline_call(fr, t, res, pth)
             return
         self._havoc(fr, t, 'callee %s not in the fragment' % res)
+
+    def value_of_ref(self, fr, op):
+        v = fr.operand(op)
+        if isinstance(v, Ref):
+            return fr._project(fr.store.get(v.root, TOP), v.proj)
+        if v is TOP:
+            return fr.deref_operand(op)
+        return v
+
+    def place_id(self, fr, op):
+        """Stable identity of the place a reference operand designates."""
+        t = fr.ref_place_of(op)
+        if isinstance(t, dict):
+            root, proj = fr.root_of(t)
+            return (root, tuple(tuple(x) for x in proj))
+        if isinstance(t, tuple):
+            return (t[1].root, tuple(tuple(x) for x in t[1].proj))
+        return None
 
     def _havoc(self, fr, t, why):
         # every &mut argument's referent becomes opaque; so does the result
@@ -838,11 +927,14 @@ class Interp:
 
     def _as_lin(self, v):
         if isinstance(v, ConstField):
-            return Lin.atom('const:' + _const_name(self.facts, v.v))
+            nm = 'const:' + _const_name(self.facts, v.v)
+            CONST_ATOMS[nm] = v.v
+            return Lin.atom(nm)
         return v
 
 
 _const_names = {}
+CONST_ATOMS = {}
 
 
 def _const_name(facts, v):
